@@ -2,7 +2,7 @@
 import ast
 import z3
 from .engine import (I, R, B, A1, A2, CPLX, cmul, fresh, OutOfFragment, ContractError, MissingSnapshot, UnknownName, AV, Ref, View, IdxList,
-                     Gather, ArrCmp, ListObj, Obj, Unbound, State, VC, SpecEval, elem_sort, arr_sort,
+                     Gather, ArrCmp, ListObj, Obj, Unbound, PyConst, State, VC, SpecEval, elem_sort, arr_sort,
                      is_z3, to_z3, as_bool, as_num, compare, scalar_binop, array_binop)
 
 TYPE_ARR = {'int1': (1, 'int'), 'int2': (2, 'int'), 'real1': (1, 'real'), 'cplx1': (1, 'cplx'), 'int3': (3, 'int')}
@@ -343,6 +343,8 @@ class FuncVerifier(object):
         return self.vcs
 
     def fresh_value(self, st, name, t, param=False):
+        if isinstance(t, tuple) and t and t[0] == 'const':
+            return PyConst(t[1])
         if t == 'int':
             return fresh(name, I)
         if t == 'bool':
@@ -874,7 +876,7 @@ class FuncVerifier(object):
         if isinstance(v, (bool, int, float)):
             return to_z3(v)
         if isinstance(v, complex):
-            raise OutOfFragment('complex literal', n)
+            return PyConst(v)
         return v
 
     def ex_Name(self, n, st):
@@ -910,6 +912,8 @@ class FuncVerifier(object):
         if isinstance(n.op, ast.Not):
             return z3.Not(self.truth(v, st, n))
         if isinstance(n.op, ast.USub):
+            if isinstance(v, PyConst):
+                return PyConst(-v.value)
             if isinstance(v, (Ref, View, AV)):
                 return self.bin(ast.Sub(), z3.IntVal(0), v, st, n)
             return -as_num(v)
@@ -1019,6 +1023,17 @@ class FuncVerifier(object):
                 st.pc.append(qv2 == z3.If(in0, z3.IntVal(0), z3.If(in1, z3.IntVal(1), qv)))
                 rv, qv = rv2, qv2
                 return rv if isinstance(op, ast.Mod) else qv
+        if isinstance(op, (ast.BitXor, ast.BitAnd, ast.BitOr)) and not isinstance(a, (Ref, View, AV, PyConst)) and not isinstance(b, (Ref, View, AV, PyConst)):
+            # bitwise operators on small non-negative integers: exact 8x8 table (operands must be provably in 0..7)
+            a_, b_ = as_num(a), as_num(b)
+            if z3.is_int(a_) and z3.is_int(b_):
+                self.oblige(st, self.site(node, 'bitop-range'), z3.And(0 <= a_, a_ <= 7, 0 <= b_, b_ <= 7), node)
+                f = {ast.BitXor: lambda x, y: x ^ y, ast.BitAnd: lambda x, y: x & y, ast.BitOr: lambda x, y: x | y}[type(op)]
+                res = z3.IntVal(0)
+                for x in range(8):
+                    for y in range(8):
+                        res = z3.If(z3.And(a_ == x, b_ == y), z3.IntVal(f(x, y)), res)
+                return res
         if isinstance(op, ast.Div) and is_z3(to_z3(a)) and is_z3(to_z3(b)) and not isinstance(a, (Ref, View, AV)) and not isinstance(b, (Ref, View, AV)):
             bs_ = z3.simplify(as_num(b))
             if not (z3.is_int_value(bs_) or z3.is_rational_value(bs_)) and as_num(a).sort() != CPLX and bs_.sort() != CPLX:
